@@ -12,6 +12,7 @@ mod container;
 mod queue;
 mod bpq;
 mod segbuf;
+mod bloom;
 mod collection;
 mod reader;
 mod range;
@@ -44,6 +45,7 @@ fn main() {
         queue::dispatch,
         bpq::dispatch,
         segbuf::dispatch,
+        bloom::dispatch,
         collection::dispatch,
         reader::dispatch,
         range::dispatch,
